@@ -165,10 +165,15 @@ def run_case(c):
                             laws = {}
                             for i, j in enumerate(S):
                                 laws[j] = law(j, at[i] if at else None, g[i] if g else None, r[i] if r else None)
+                            before_args = repr((sp, at, g, r))
                             try:
                                 t = to_rfi(d, sp, amplification_type=at, amplifier_gain=g, resolution=r)
                             except Exception as e:
                                 res.violation('list:raises:%s' % type(e).__name__, '%s raised %s: %s' % (what, type(e).__name__, e), one)
+                                continue
+                            if repr((sp, at, g, r)) != before_args:
+                                # the caller's own lists (which it may reuse for the next sample) must come back as they were handed in
+                                res.violation('list:arguments-changed', '%s changed the caller\'s argument lists to %r' % (what, (sp, at, g, r)), one)
                                 continue
                             if not expect_ok(res, 'list', what, d, base, t, laws, one):
                                 continue
